@@ -42,6 +42,7 @@ void SimHeap::begin_run(uint64_t junk, Rng placement, EventLog *lg) {
     init_arena();
     end_run();
     blocks.clear(); issues.clear();
+    blocks.reserve(NCELLS + 8);     // never reallocates within a run: pointers to HeapBlock stay valid across library calls
     cells_used = 0; cur_op = -1; fail_at = 0; allocs_in_op = frees_in_op = failed_in_op = 0;
     junk_seed = junk; place_rng = placement; log = lg;
     active = true;
@@ -295,7 +296,7 @@ uint8_t *ArgArea::place(size_t len, int mode, unsigned align) {
     if (cur) {  // restore the previous window
         memset(cur, fillb, curlen);
     }
-    if (len > DATA - 4096 - 64) len = DATA - 4096 - 64;
+    if (len > DATA - 4096 - 64) { fprintf(stderr, "HARNESS-FAULT: argument of %zu bytes does not fit a caller-memory area\n", len); _exit(2); }
     uint8_t *p;
     if (mode == MEM_END_FLUSH) p = data() + DATA - len;
     else if (mode == MEM_START_FLUSH) p = data();
